@@ -629,7 +629,7 @@ def add_rest(U):
 
 
 def build(repo):
-    U = Unit("qc", ["C04"], desc="quorum certificates", uses=T.USES)
+    U = Unit("qc", ["C04", "C10"], desc="quorum certificates", uses=T.USES)
     U.repo = repo
     T.add_base_types(U)
     add_signers(U)
